@@ -22,7 +22,7 @@ ASSUMPTIONS = ['refpgp.sig (independent 5.2.4 implementation, self-tested on 62 
                'any exception from PGPy counts as "an error is raised"']
 
 SIG_MUTS = ['type', 'pkalg', 'halg', 'hashed-bit', 'hashed-len', 'sub-delete', 'sub-dup', 'sub-swap', 'sub-move-unhashed',
-            'sub-value', 'sub-add', 'mpi-bit', 'mpi-plus1', 'mpi-zero', 'mpi-swap', 'mpi-trunc', 'mpi-high', 'version']
+            'sub-value', 'sub-add', 'sub-unknown-bit', 'mpi-bit', 'mpi-plus1', 'mpi-zero', 'mpi-swap', 'mpi-trunc', 'mpi-high', 'version']
 SUBJ_MUTS = ['doc-bit', 'doc-insert', 'doc-delete', 'doc-swap', 'text-eol', 'uid-char', 'uid-append', 'uid-as-ua', 'key-time', 'key-material',
              'key-alg', 'key-other', 'subkey-other', 'subkey-swap-roles', 'subkey-material']
 KEY_MUTS = ['key-otherkey-reissue', 'key-bit-reissue', 'key-primary-for-subkey', 'key-encsubkey-reissue']
@@ -56,7 +56,7 @@ def case_strategy(fast_only=False):
         'b': st.integers(0, 1 << 20),
         'doc': st.one_of(st.binary(max_size=80), st.sampled_from([b'', b'a', b'line one\nline two\r\nline three', b'\x00' * 64]),
                          st.text(alphabet='ab \n\r\t-', max_size=30).map(lambda x: x.encode())),
-        'carrier': st.sampled_from(['detached', 'detached', 'inside']),
+        'carrier': st.sampled_from(['detached', 'detached', 'inside', 'copy']),
     })
 
 
@@ -108,6 +108,19 @@ def mutate(t, mut, a, b):
             h[pos] ^= 1 << (b % 8)
             m.sig = _rebuild_sig(s, hashed=bytes(h))
             return m, 'hashed-bit', None
+        if mut == 'sub-unknown-bit':
+            # an undefined bit set in a flags / boolean subpacket: parsers that keep only what they understand normalise it away
+            cand = [x for x in s.hashed if x.type in (27, 30, 23, 7, 4, 25, 21, 11, 22) and x.body]
+            if not cand:
+                return None
+            x = cand[a % len(cand)]
+            nb = bytearray(x.body)
+            nb[0] ^= (0x40, 0x80, 0x20)[b % 3] if x.type in (27, 30, 23) else 0x02 if x.type in (7, 4, 25) else 0x40
+            if bytes(nb) == x.body:
+                return None
+            newraw = wire.build_subpacket(x.type, bytes(nb), x.critical, x.lenform)
+            m.sig = _rebuild_sig(s, hashed=s.hashed_area.replace(x.raw, newraw, 1))
+            return m, 'sub-unknown-bit/sub%d' % x.type, None
         if mut == 'hashed-len':
             # move the boundary between the hashed and the unhashed area by one subpacket
             if len(s.hashed) < 2:
@@ -438,10 +451,10 @@ def evaluate(case, rec):
         res = _inside_carrier(t, m, label)
         if res is None:
             carrier = 'detached'
-    else:
+    elif carrier != 'copy':
         carrier = 'detached'
     if res is None:
-        res = m.pg_verdict(cert)
+        res = m.pg_verdict(cert, copied=(carrier == 'copy'))
     verdict, det = res
     key = (algname, case['halg'], label, carrier, case['mut'], field)
     rec.case(key, True, ('kind/' + label, 'mut/' + case['mut'], 'alg/' + algname, 'carrier/' + carrier, 'outcome/' + verdict,
@@ -483,7 +496,7 @@ def matrix(arg):
     i = 0
     for label in sigkit.KINDS + ['pkbind-19']:
         for mut in sorted(set(APPLICABLE[LABEL_KIND[label]])):
-            for carrier in ('detached', 'inside'):
+            for carrier in ('detached', 'inside', 'copy'):
                 for v in range(variants * (3 if mut == 'text-eol' else 1)):
                     i += 1
                     if i % nparts != part:
